@@ -275,7 +275,7 @@ Definition groupselect_model (which : Z) (key : val) (value : val) (presorted : 
   else
     let inner := sort_model None (which =? 3) (Some value) t in          (* 2 = min, 3 = max *)
     match inner with
-    | (it, None) => rowreduce_model key 1 None presorted bs it
+    | (it, None) => rowreduce_model key 1 None false bs it           (* always re-sorted by key, whatever `presorted` says *)
     | (it, Some e) =>
         (* the inner sort fails when iterated by the outer sort / by rowreduce *)
         match it with h :: _ => if presorted then ([h], Some e) else ([h], Some e) | [] => ([], Some e) end
